@@ -59,7 +59,7 @@ impl<'a> Gen<'a> {
         } else {
             let mut s = hostile_string(self.rng, 1, 6, true);
             if self.rng.chance(1, 4) {
-                s.push_str(*self.rng.pick(&["a<b", "x & y", "\"q\"", "1<2>3", "&amp;", "<script>", "\u{a0}", "]]>", "a\u{226e}b", "\u{ff1c}b\u{ff06}", "\u{fb01}n"]));
+                s.push_str(*self.rng.pick(&["a<b", "x & y", "\"q\"", "1<2>3", "&amp;", "<script>", "\u{a0}", "]]>", "a\u{226e}b", "\u{ff1c}b\u{ff06}", "\u{fb01}n", "\u{3060}a<", "\u{2020}&", "x\u{20a0}", "\u{10a0}\u{a0}"]));
             }
             s
         }
@@ -156,6 +156,13 @@ impl<'a> Gen<'a> {
         let is_raw = ns.is_empty() && (lower == "script" || lower == "style");
         // void elements have no content
         let is_void = matches!(class_of(&e.name), NsClass::Html | NsClass::Xhtml) && (VOID_JUDGED.contains(&lower.as_str()) || VOID_LEGACY.contains(&lower.as_str()));
+        if is_void && self.rng.chance(1, 4) {
+            // a void element that nevertheless has content (the API allows it): still no end tag. Only comments, so
+            // that the text of the void element cannot run into the text after it in the output
+            for _ in 0..self.rng.range(1, 2) {
+                e.children.push(ANode::comment(&plain_string(self.rng, 0, 3)));
+            }
+        }
         if depth < 5 && self.budget > 0 && !is_void {
             let n = self.rng.pick_weighted(&[3, 4, 3, 2, 1]);
             for _ in 0..n {
